@@ -1091,6 +1091,7 @@ class QMI_UsbTmcTransport(QMI_Transport):
         return data
 
     def discard_read(self) -> None:
+        self._check_is_open()
         try:
             self._read_message(0.0)
         except QMI_TimeoutException:
